@@ -58,6 +58,18 @@ class Canon(ast.NodeTransformer):
             l, r = node.left, node.comparators[0]
             if _is_const_like(l) and not _is_const_like(r):
                 node.left, node.comparators = r, [l]
+            # (A if c else B) == K with literal A, B, K: the comparison only re-reads c
+            l, r = node.left, node.comparators[0]
+            if isinstance(l, ast.IfExp) and isinstance(l.body, ast.Constant) and isinstance(l.orelse, ast.Constant) and isinstance(r, ast.Constant):
+                eq = isinstance(node.ops[0], ast.Eq)
+                ta, tb = (l.body.value == r.value) == eq, (l.orelse.value == r.value) == eq
+                if ta and tb:
+                    return ast.copy_location(ast.Constant(value=True), node)
+                if not ta and not tb:
+                    return ast.copy_location(ast.Constant(value=False), node)
+                if ta:
+                    return l.test
+                return self.visit(ast.copy_location(ast.UnaryOp(op=ast.Not(), operand=l.test), node))
         return node
 
     def visit_BoolOp(self, node: ast.BoolOp):
@@ -322,6 +334,9 @@ def alias_paths(tree: ast.AST, computed=frozenset()) -> ast.AST:
 def _pure_cell(c: ast.AST) -> bool:
     if isinstance(c, (ast.Constant, ast.Name, ast.Lambda)):
         return True
+    if isinstance(c, ast.Call) and not c.keywords and c.args and all(isinstance(a, ast.Constant) for a in c.args) \
+            and (getattr(c.func, 'attr', None) or getattr(c.func, 'id', '')) in ('attrgetter', 'itemgetter', 'methodcaller'):
+        return True          # operator.attrgetter('x') and friends: a pure accessor, as good as a lambda
     if isinstance(c, ast.Attribute):
         return _pure_cell(c.value)
     if isinstance(c, ast.BoolOp):
@@ -385,6 +400,9 @@ class _Subst(ast.NodeTransformer):
                 return ast.copy_location(out, node)
             if iname == 'itemgetter' and len(inner.args) == 1 and isinstance(inner.args[0], ast.Constant):
                 return ast.copy_location(ast.Subscript(value=node.args[0], slice=inner.args[0], ctx=ast.Load()), node)
+            if iname == 'methodcaller' and len(inner.args) == 1 and isinstance(inner.args[0], ast.Constant) and isinstance(inner.args[0].value, str) \
+                    and inner.args[0].value.isidentifier():
+                return ast.copy_location(ast.Call(func=ast.Attribute(value=node.args[0], attr=inner.args[0].value, ctx=ast.Load()), args=[], keywords=[]), node)
         # map(f, xs) -> (f(x) for x in xs) ; filter(f, xs) -> (x for x in xs if f(x)) ; filter(None, xs) -> (x for x in xs if x)      [iterators either way]
         if isinstance(node.func, ast.Name) and fname in ('map', 'filter') and len(node.args) == 2 and not node.keywords \
                 and not any(isinstance(a, ast.Starred) for a in node.args):
@@ -431,8 +449,41 @@ def _is_lookup_with_default(test: ast.AST, value: ast.AST) -> bool:
 class _JoinOverDisplay(ast.NodeTransformer):
     """D9:  SEP.join(E(x) for x in [a, b])  ->  f'{E(a)}SEP{E(b)}'   (SEP a string literal, the iterable a display of plain values, a local bound once to
     such a display, or a conditional choice between displays - then the result is the same choice between the joined texts)."""
-    def __init__(self, local_displays):
+    def __init__(self, local_displays, loads=None):
         self.local = local_displays
+        self.loads = loads or {}
+        self.moved = set()          # locals whose display was moved to the (only) place that read it
+
+    def _filtered_display(self, arg):
+        """`filter(None, D)` / `(x for x in D if x)` over a display D (written there, or a local bound once to it and read only here): the elements, each
+        rewritten to what it contributes to a join with the EMPTY separator (`A and X` -> `X if A else ''`; a dropped element contributes nothing)."""
+        d = None
+        if isinstance(arg, ast.Call) and isinstance(arg.func, ast.Name) and arg.func.id == 'filter' and len(arg.args) == 2 and not arg.keywords \
+                and isinstance(arg.args[0], ast.Constant) and arg.args[0].value is None:
+            d = arg.args[1]
+        elif isinstance(arg, (ast.GeneratorExp, ast.ListComp)) and len(arg.generators) == 1 and isinstance(arg.generators[0].target, ast.Name) \
+                and isinstance(arg.elt, ast.Name) and arg.elt.id == arg.generators[0].target.id and len(arg.generators[0].ifs) == 1 \
+                and isinstance(arg.generators[0].ifs[0], ast.Name) and arg.generators[0].ifs[0].id == arg.elt.id:
+            d = arg.generators[0].iter
+        via = None
+        if isinstance(d, ast.Name) and d.id in self.local and self.loads.get(d.id, 0) == 1:
+            via, d = d.id, self.local[d.id]
+        if not isinstance(d, (ast.Tuple, ast.List)) or not (1 <= len(d.elts) <= 12) or any(isinstance(e, ast.Starred) for e in d.elts):
+            return None
+        if via:
+            self.moved.add(via)
+        out = []
+        for e in d.elts:
+            if isinstance(e, ast.BoolOp) and isinstance(e.op, ast.And) and len(e.values) >= 2:
+                test = e.values[0] if len(e.values) == 2 else ast.BoolOp(op=ast.And(), values=e.values[:-1])
+                out.append(ast.IfExp(test=test, body=e.values[-1], orelse=ast.Constant(value='')))
+            elif isinstance(e, ast.BoolOp) and isinstance(e.op, ast.Or) and len(e.values) == 2 and isinstance(e.values[1], ast.Constant) and e.values[1].value == '':
+                out.append(e.values[0])
+            elif isinstance(e, ast.IfExp) and isinstance(e.orelse, ast.Constant) and e.orelse.value in (None, ''):
+                out.append(ast.IfExp(test=e.test, body=e.body, orelse=ast.Constant(value='')))
+            else:
+                out.append(e)
+        return out
 
     @staticmethod
     def _display(e):
@@ -465,6 +516,13 @@ class _JoinOverDisplay(ast.NodeTransformer):
     def visit_Call(self, node):
         self.generic_visit(node)
         f = node.func
+        if isinstance(f, ast.Attribute) and f.attr == 'join' and isinstance(f.value, ast.Constant) and f.value.value == '' and len(node.args) == 1 and not node.keywords:
+            els = self._filtered_display(node.args[0])
+            if els is not None:
+                node.args = [ast.copy_location(ast.Tuple(elts=els, ctx=ast.Load()), node.args[0])]
+                for x in ast.walk(node.args[0]):
+                    if not hasattr(x, 'lineno'):
+                        ast.copy_location(x, node)
         if isinstance(f, ast.Attribute) and f.attr == 'join' and isinstance(f.value, ast.Constant) and isinstance(f.value.value, str) and len(node.args) == 1 \
                 and not node.keywords and isinstance(node.args[0], (ast.List, ast.Tuple)) and 1 <= len(node.args[0].elts) <= 12 \
                 and not any(isinstance(e, ast.Starred) for e in node.args[0].elts):
@@ -673,6 +731,41 @@ class Desugar(ast.NodeTransformer):
             if k_ not in self.stores:
                 const_locals.setdefault(k_, v_)
         node = _FormatToFString(const_locals).visit(node)
+        # D15: p = partial(F, a, k=v) ; ... p(x)   ->   F(a, x, k=v)      (p bound once)
+        partials = {}
+        for x in ast.walk(node):
+            if isinstance(x, ast.Assign) and len(x.targets) == 1 and isinstance(x.targets[0], ast.Name) and self.stores.get(x.targets[0].id) == 1 \
+                    and isinstance(x.value, ast.Call) and (getattr(x.value.func, 'attr', None) or getattr(x.value.func, 'id', '')) == 'partial' and x.value.args \
+                    and isinstance(x.value.args[0], (ast.Name, ast.Attribute)) and all(_pure_cell(a) for a in x.value.args[1:]) \
+                    and all(k.arg is not None and _pure_cell(k.value) for k in x.value.keywords):
+                partials[x.targets[0].id] = x.value
+        if partials:
+            import copy as _cp
+
+            class _P(ast.NodeTransformer):
+                def visit_Call(self_, c):
+                    self_.generic_visit(c)
+                    if isinstance(c.func, ast.Name) and c.func.id in partials:
+                        pc = partials[c.func.id]
+                        return ast.copy_location(ast.Call(func=_cp.deepcopy(pc.args[0]), args=[_cp.deepcopy(a) for a in pc.args[1:]] + c.args,
+                                                          keywords=[_cp.deepcopy(k) for k in pc.keywords] + c.keywords), c)
+                    return c
+
+                def visit_Assign(self_, a):
+                    self_.generic_visit(a)
+                    return a
+            node = _P().visit(node)
+            still = Counter(x.id for x in ast.walk(node) if isinstance(x, ast.Name) and isinstance(x.ctx, ast.Load))
+
+            class _DropP(ast.NodeTransformer):
+                def visit_Assign(self_, a):
+                    if len(a.targets) == 1 and isinstance(a.targets[0], ast.Name) and a.targets[0].id in partials and still.get(a.targets[0].id, 0) == 0:
+                        return None
+                    return a
+            node = _DropP().visit(node)
+            node = _FormatToFString(const_locals).visit(node)       # `partial(TEMPLATE.format, a)(b)` has become `TEMPLATE.format(a, b)`
+            ast.fix_missing_locations(node)
+            self.loads = Counter(x.id for x in ast.walk(node) if isinstance(x, ast.Name) and isinstance(x.ctx, ast.Load))
         # D9: joins over displays (directly or through a local bound once)
         local_displays = {}
         for x in ast.walk(node):
@@ -680,13 +773,17 @@ class Desugar(ast.NodeTransformer):
                     and isinstance(x.value, (ast.List, ast.Tuple, ast.IfExp)):
                 local_displays[x.targets[0].id] = x.value
         if any(isinstance(x, ast.Attribute) and x.attr == 'join' for x in ast.walk(node)):
-            node = _JoinOverDisplay(local_displays).visit(node)
+            jod = _JoinOverDisplay(local_displays, self.loads)
+            node = jod.visit(node)
+            moved = jod.moved
             # a display local that was only read by the join is dead now
             loads_now = Counter(x.id for x in ast.walk(node) if isinstance(x, ast.Name) and isinstance(x.ctx, ast.Load))
             dead = {n for n in local_displays if loads_now.get(n, 0) == 0 and self.loads.get(n, 0) > 0}
             if dead:
                 class _Drop(ast.NodeTransformer):
                     def visit_Assign(self_, a):
+                        if len(a.targets) == 1 and isinstance(a.targets[0], ast.Name) and a.targets[0].id in dead and a.targets[0].id in moved:
+                            return None
                         if len(a.targets) == 1 and isinstance(a.targets[0], ast.Name) and a.targets[0].id in dead and all(
                                 _pure_cell(c) for d in ([a.value] if not isinstance(a.value, ast.IfExp) else [a.value.body, a.value.orelse])
                                 for c in (d.elts if isinstance(d, (ast.List, ast.Tuple)) else [ast.Call(func=ast.Name(id='x', ctx=ast.Load()), args=[], keywords=[])])):
@@ -1444,6 +1541,92 @@ class _MatchToIf(ast.NodeTransformer):
         return ast.copy_location(out, node)
 
 
+def split_live_ranges(tree: ast.AST) -> ast.AST:
+    """D16: a local that is re-bound by plain assignments at the top level of the function body only (`v = A; use(v); v = B; use(v)`) names a different
+    value in each stretch; the later stretches get their own name (`v__2`), so each is a local bound once and the alias rules apply to each."""
+    class _Ren(ast.NodeTransformer):
+        def __init__(self, old, new):
+            self.old, self.new = old, new
+
+        def visit_Name(self, n):
+            if n.id == self.old:
+                return ast.copy_location(ast.Name(id=self.new, ctx=n.ctx), n)
+            return n
+    for fn in [n for n in ast.walk(tree) if isinstance(n, (ast.FunctionDef, ast.AsyncFunctionDef))]:
+        params = {a.arg for a in fn.args.args + fn.args.kwonlyargs + fn.args.posonlyargs}
+        if fn.args.vararg:
+            params.add(fn.args.vararg.arg)
+        if fn.args.kwarg:
+            params.add(fn.args.kwarg.arg)
+        nested_names = {x.id for d in ast.walk(fn) if d is not fn and isinstance(d, (ast.FunctionDef, ast.AsyncFunctionDef, ast.Lambda, ast.ClassDef))
+                        for x in ast.walk(d) if isinstance(x, ast.Name)}
+        declared = {n_ for x in ast.walk(fn) if isinstance(x, (ast.Global, ast.Nonlocal)) for n_ in x.names}
+        top = {}
+        for i, st in enumerate(fn.body):
+            if isinstance(st, ast.Assign) and len(st.targets) == 1 and isinstance(st.targets[0], ast.Name):
+                top.setdefault(st.targets[0].id, []).append(i)
+        for v, at in top.items():
+            if len(at) < 2 or v in params or v in nested_names or v in declared:
+                continue
+            n_stores = sum(1 for x in ast.walk(fn) if isinstance(x, ast.Name) and x.id == v and isinstance(x.ctx, (ast.Store, ast.Del)))
+            if n_stores != len(at):
+                continue
+            for k, i in enumerate(at[1:], start=2):
+                new = f'{v}__{k}'
+                end = at[k] if k < len(at) else len(fn.body)
+                r = _Ren(v, new)
+                st = fn.body[i]
+                st.targets = [r.visit(st.targets[0])]           # the right-hand side still reads the previous stretch
+                prev = v if k == 2 else f'{v}__{k - 1}'
+                if prev != v:
+                    st.value = _Ren(v, prev).visit(st.value)
+                fn.body[i + 1:end] = [r.visit(s_) for s_ in fn.body[i + 1:end]]
+    ast.fix_missing_locations(tree)
+    return tree
+
+
+def inline_test_locals(tree: ast.AST) -> ast.AST:
+    """D17: `flag = <comparison / and / or / not over names and literals>` bound once at the top level of a function, the names it reads never re-bound and
+    never the receiver of a method call or the target of an item assignment (so the value cannot change under the flag): reads of `flag` become the test
+    itself.  Rules then see `'\n' in text` where the code says `multiline`."""
+    import copy
+
+    def pure(e) -> bool:
+        if isinstance(e, (ast.Name, ast.Constant)):
+            return True
+        if isinstance(e, ast.Compare):
+            return pure(e.left) and all(pure(c) for c in e.comparators)
+        if isinstance(e, ast.BoolOp):
+            return all(pure(v) for v in e.values)
+        if isinstance(e, ast.UnaryOp) and isinstance(e.op, ast.Not):
+            return pure(e.operand)
+        return False
+    for fn in [n for n in ast.walk(tree) if isinstance(n, (ast.FunctionDef, ast.AsyncFunctionDef))]:
+        stores = {}
+        for x in ast.walk(fn):
+            if isinstance(x, ast.Name) and isinstance(x.ctx, (ast.Store, ast.Del)):
+                stores[x.id] = stores.get(x.id, 0) + 1
+        touched = {x.func.value.id for x in ast.walk(fn) if isinstance(x, ast.Call) and isinstance(x.func, ast.Attribute) and isinstance(x.func.value, ast.Name)}
+        touched |= {x.value.id for x in ast.walk(fn) if isinstance(x, ast.Subscript) and isinstance(x.ctx, (ast.Store, ast.Del)) and isinstance(x.value, ast.Name)}
+        nested = {x.id for d in ast.walk(fn) if d is not fn and isinstance(d, (ast.FunctionDef, ast.AsyncFunctionDef, ast.Lambda, ast.ClassDef))
+                  for x in ast.walk(d) if isinstance(x, ast.Name)}
+        i = 0
+        while i < len(fn.body):
+            st = fn.body[i]
+            if isinstance(st, ast.Assign) and len(st.targets) == 1 and isinstance(st.targets[0], ast.Name) and stores.get(st.targets[0].id) == 1 \
+                    and isinstance(st.value, (ast.Compare, ast.BoolOp, ast.UnaryOp)) and pure(st.value) and st.targets[0].id not in nested:
+                v = st.targets[0].id
+                reads = {x.id for x in ast.walk(st.value) if isinstance(x, ast.Name)}
+                if v not in reads and not any(stores.get(r, 0) for r in reads) and not (reads & touched) and not (reads & nested):
+                    sub = _PathSubst(v, st.value)
+                    fn.body[i + 1:] = [sub.visit(s_) for s_ in fn.body[i + 1:]]
+                    del fn.body[i]
+                    continue
+            i += 1
+    ast.fix_missing_locations(tree)
+    return tree
+
+
 def canonicalise(tree: ast.AST, computed_attrs=frozenset()) -> ast.AST:
     if any(isinstance(x, ast.Match) for x in ast.walk(tree)):
         tree = _MatchToIf().visit(tree)
@@ -1454,8 +1637,13 @@ def canonicalise(tree: ast.AST, computed_attrs=frozenset()) -> ast.AST:
     tree = propagate_module_strings(tree)
     try:
         tree = desugar(tree)
+        ast.fix_missing_locations(tree)
+        tree = desugar(tree)        # a second pass: the statements one rewrite produces may be the input of another (unrolled rows that contain `:=`, ...)
     except RecursionError:      # pragma: no cover
         pass
+    tree = split_live_ranges(tree)
+    tree = alias_paths(tree, computed_attrs)
+    tree = inline_test_locals(tree)
     tree = Canon().visit(tree)
     ast.fix_missing_locations(tree)
     return tree
